@@ -103,6 +103,8 @@ def routes_for(sk, v, tier):
         if v <= 65000:
             out.append(("label_before", "-"))
             out.append(("label_after", "-"))
+            if v >= 1:
+                out.append(("label_mid", "-"))
     return out
 
 
@@ -192,6 +194,10 @@ def build(case):
     if route == "label_after":
         txt = R.render(dict(sk, value=v), "LA1")
         return [" ORG {}".format(max(v - 3, 0)), " {} {}".format(mnem, txt), "LA1 NOP"], 1, 0
+    if route == "label_mid":
+        # the label follows a symbol definition written between the statements of the program (after the ORG)
+        txt = R.render(dict(sk, value=v), "LM1")
+        return [" ORG {}".format(v - 1), " NOP", "EQ9 EQU 5", "LM1 NOP", " {} {}".format(mnem, txt)], 4, 2
     raise ValueError(route)
 
 
@@ -233,8 +239,22 @@ def check_case(case):
         value = out["symbols"].get("LB1")
     elif route == "label_after":
         value = out["symbols"].get("LA1")
-    if route in ("label_before", "label_after") and value is None:
+    elif route == "label_mid":
+        value = out["symbols"].get("LM1")
+    if route in ("label_before", "label_after", "label_mid") and value is None:
         bad("label missing from symbol table", "symbol listed", str(out["symbols"]))
+        res["viol"] = viol
+        return res
+    if route in ("label_before", "label_mid"):
+        # where the label is does not depend on the statement under test: the ORG and the one-byte statements before it fix it
+        if value != v:
+            bad("label has the wrong value", "{} = ${:04X} (ORG plus the bytes before it)".format("LB1" if route == "label_before" else "LM1", v),
+                "${:04X}".format(value))
+            res["viol"] = viol
+            return res
+    elif route == "label_after" and value != max(v - 3, 0) + len(image) - 1:
+        bad("label has the wrong value", "LA1 = ORG + size of the statement before it = ${:04X}".format(max(v - 3, 0) + len(image) - 1),
+            "${:04X}".format(value))
         res["viol"] = viol
         return res
     intent = dict(sk)
@@ -283,7 +303,7 @@ def describe(tier):
         "alphabet": "all non-branch mnemonics of the datasheet table x every operand form of their row "
                     "(inh, #imm, addr, <addr, >addr, [addr], indexed zero/const/A,B,D/auto inc-dec x X,Y,U,S x direct/indirect, "
                     "n,PCR, [n,PCR]) x boundary value set V16 (+3 character codes) x spellings "
-                    "{dec,$min,$2,$4,%8,%16,'c} x routes {literal, EQU before/after use, label before/after use}; "
+                    "{dec,$min,$2,$4,%8,%16,'c} x routes {literal, EQU before/after use, label before/after use, label after an EQU written between the statements}; "
                     "all 255 register masks x 4 push/pull mnemonics x up to 4 orders, plus lists naming a register twice (D with A/B, plain repeats); all legal TFR/EXG pairs"
                     + ("; plus the complete range -32768..65535 for every value-bearing form of 14 representative rows" if tier == "thorough" else ""),
         "bound": "single statements (depth 1) in 1-3 line programs",
